@@ -231,7 +231,7 @@ static void run_c(void)
   vk_thread_join(b);
 }
 
-static long c20_n(int tier) { return tier ? 6 : 4; }
+static long c20_n(int tier) { return tier ? 5 : 4; }
 static void c20_run(int tier, long cfg)
 {
   switch (cfg) {
@@ -239,7 +239,7 @@ static void c20_run(int tier, long cfg)
     case 1: run_a(tier ? 3 : 2); break;
     case 2: run_c(); break;
     case 3: run_b(2, 1, 1); break;
-    case 4: run_b(3, 1, 0); break;
+    case 4: run_b(3, 0, 0); break; /* three threads: every free alternative (blocked calls, joins, exits), no preemption */
     case 5: run_b(2, 1, 0); break;
   }
 }
